@@ -71,6 +71,7 @@ func histPool() []poolCall {
 		{fn: FnCreateMergePatch, a: `{"a":[[1],2],"k":{"z":1,"y":2}}`, b: `{"a":[3,2],"k":{"y":2}}`},
 		{fn: FnCreateMergePatch, a: `[{"a":1}]`, b: `[{"a":2},{"b":null}]`},
 		{fn: FnCreateMergePatch, a: `"str"`, b: d0},
+		{fn: FnCreateMergePatch, a: d1, b: d2},
 		{fn: FnEqual, a: d1, b: d2},
 		{fn: FnEqual, a: ` 12`, b: `12`},
 		{fn: FnEqual, a: `[null,{"a":[]}]`, b: `[null,{"a":[ ]}]`},
@@ -80,7 +81,7 @@ func histPool() []poolCall {
 
 func tripleScenario(seed uint64, prop, target string, pool []poolCall, idx [3]int, item int) *Scenario {
 	sc := &Scenario{Format: 1, Property: prop, Engine: "hist3", Target: target, Seed: seed}
-	sc.Cfg = Cfg{Pool: []int{simrt.PoolLIFO, simrt.PoolAdversarial, simrt.PoolFIFO}[item%3], MapOrder: item % simrt.NumMapPolicies, Warm: item%2 == 0, SpareCap: item%4 < 2, Scribble: item%8 >= 4}
+	sc.Cfg = Cfg{Pool: []int{simrt.PoolLIFO, simrt.PoolAdversarial, simrt.PoolFIFO}[item%3], MapOrder: item % simrt.NumMapPolicies, Warm: item%2 == 0, SpareCap: item%4 < 2, Scribble: item%8 >= 4, ScribbleResults: item%5 == 1}
 	bufIdx := map[string]int{}
 	buf := func(t string) int {
 		if i, ok := bufIdx[t]; ok {
